@@ -1051,7 +1051,8 @@ class ReducedDensityMatrixPropagator(MatrixData, Saveable):
             cutoff_indx = \
             self.TimeAxis.nearest(self.RelaxationTensor.cutoff_time)
         else:
-            cutoff_indx = self.TimeAxis.length
+            sbi = self.RelaxationTensor.SystemBathInteraction
+            cutoff_indx = sbi.TimeAxis.length
 
         Km = self.RelaxationTensor.Km
         Kd = numpy.zeros(Km.shape, dtype=numpy.float64)
@@ -1062,21 +1063,38 @@ class ReducedDensityMatrixPropagator(MatrixData, Saveable):
         indx = 1
         indxR = 1
 
+        #
+        # the operators are known on the time axis of the bath; as in the
+        # tensor form we walk through them with the stride which corresponds
+        # to one refined propagation step
+        #
+        sysstep = self.RelaxationTensor.SystemBathInteraction.TimeAxis.step
+        Nref_max = round(self.TimeAxis.step/sysstep)
+        Nref_req = self.Nref
+
+        if Nref_max % Nref_req == 0:
+            stride = Nref_max//Nref_req
+        else:
+            raise Exception("Incompatible number of refinement steps")
+
+        dt = sysstep*stride
+
         for ii in range(1, self.Nt): 
 
-            Lm = self.RelaxationTensor.Lm[indxR,:,:,:]
-            Ld = self.RelaxationTensor.Ld[indxR,:,:,:]
        
             for jj in range(0, self.Nref):
+
+                Lm = self.RelaxationTensor.Lm[indxR,:,:,:]
+                Ld = self.RelaxationTensor.Ld[indxR,:,:,:]
                 
                 for ll in range(1, L+1):
                     
-                    rhoY =  - _COM(HH, ll, self.dt,rho1) 
+                    rhoY =  - _COM(HH, ll, dt,rho1) 
                     
                     #(1j*self.dt/ll)*(numpy.dot(HH,rho1) 
                     #                         - numpy.dot(rho1,HH))
                     
-                    _OTI(rhoY, Km, Kd, Lm, Ld, ll, self.dt, rho1)
+                    _OTI(rhoY, Km, Kd, Lm, Ld, ll, dt, rho1)
                     
                     # for mm in range(Nm):
                         
@@ -1091,11 +1109,13 @@ class ReducedDensityMatrixPropagator(MatrixData, Saveable):
                     
                     rho2 = rho2 + rho1
                 rho1 = rho2    
+
+                # beyond the cut-off (or the end of the operators' time axis)
+                # we keep using the last available operators
+                indxR = min(indxR + stride, cutoff_indx - 1)
                 
             pr.data[indx,:,:] = rho2 
             indx += 1             
-            if indxR < cutoff_indx-1:                      
-                indxR += 1             
 
         if self.Hamiltonian.has_rwa:
             pr.is_in_rwa = True
